@@ -13,6 +13,9 @@ SLAT_ADVX, SLAT_ATTTO, SLAT_ATTX, SLAT_SHIFTX, SLAT_USER = 0, 2, 3, 20, 55
 GATTR_TEST = 5          # the glyph attribute constraints may test (GAttr in the spec)
 
 
+FEATPAD = [0]           # features put in front of the program's own (font_model(featpad=...)): shifts every feature index
+
+
 def push(v):
     if -128 <= v <= 127:
         return [PUSH_BYTE, v & 0xFF]
@@ -43,7 +46,7 @@ def compile_action(rule):
         if it["shift"] >= 0:
             b += push(it["shift"]) + [ATTR_SET, SLAT_SHIFTX]
         if it.get("sf", 0) > 0:
-            b += push(it["sv"]) + [SET_FEAT, it["sf"] - 1, 0]
+            b += push(it["sv"]) + [SET_FEAT, it["sf"] - 1 + FEATPAD[0], 0]
         if it["att"] >= 0:
             b += push(it.get("attref", -1)) + [ATTR_SET_SLOT, SLAT_ATTTO] + push(it["att"]) + [ATTR_SET, SLAT_ATTX]
         b += [NEXT]
@@ -60,7 +63,7 @@ def compile_constraint(con):
     if con["kind"] == "gattr":
         body = [PUSH_GLYPH_ATTR_OBS, GATTR_TEST, 0] + push(con["val"]) + [EQUAL]
     elif con["kind"] == "feat":
-        body = [PUSH_FEAT, con["f"] - 1, 0] + push(con["val"]) + [EQUAL]
+        body = [PUSH_FEAT, con["f"] - 1 + FEATPAD[0], 0] + push(con["val"]) + [EQUAL]
     elif con["kind"] == "user2":
         body = [PUSH_ISLOT_ATTR, SLAT_USER, 0, 1] + push(con["val"]) + [EQUAL]
     else:
@@ -71,11 +74,12 @@ def compile_constraint(con):
 GATTR_PASSBITS = 6      # the pass-skip bits glyph attribute (Silf aPassBits), when a font carries one
 
 
-def font_model(prog, classes, adv, gattr, rtl, nlinear=None, nfeat=0, passbits=False):
+def font_model(prog, classes, adv, gattr, rtl, nlinear=None, nfeat=0, passbits=False, featpad=0):
     """classes: list of lists (as in the spec, glyph ids); adv/gattr: dict or list indexed by gid (0..NG).
     passbits: give every glyph the pass-skip attribute the GDL compiler would (bit p set iff no rule of pass p names a
     class containing the glyph - GdlRef!Mentioned), so that the engine leaves passes out where it may."""
     ng = len(adv) - 1
+    FEATPAD[0] = featpad if nfeat else 0
     glyphs = [{"adv": adv[g], "attrs": ({GATTR_TEST: gattr[g]} if gattr[g] else {})} for g in range(ng + 1)]
     if passbits:
         for g in range(ng + 1):
@@ -93,4 +97,4 @@ def font_model(prog, classes, adv, gattr, rtl, nlinear=None, nfeat=0, passbits=F
         passes.append({"kind": p["kind"], "maxloop": 5, "rules": rules})
     return {"upem": 1000, "rtl": rtl, "nuser": 2, "glyphs": glyphs, "cmap": {97 + g - 1: g for g in range(1, ng + 1)},
             "classes": [list(c) for c in classes], "nlinear": len(classes) if nlinear is None else nlinear, "passes": passes, "nfeat": nfeat,
-            "apassbits": GATTR_PASSBITS if passbits else 0}
+            "apassbits": GATTR_PASSBITS if passbits else 0, "featpad": FEATPAD[0]}
